@@ -764,139 +764,10 @@ def r_sharedpose(idx, rep, rule="R-SHAREDPOSE"):
 
 # ---------------------------------------------------------------------------------------------------------------------------------
 # R-HPCOVER: the half-plane intersection enumerates EVERY pair of half-planes as a candidate vertex and tests every candidate against EVERY other half-plane.
-# Decided by enumerating the index space of the loop nest for n = 3 .. 6 half-planes: only integer expressions (range bounds, `k != i`) are evaluated,
-# calls on the data are recorded with the indices of the rows they receive.  Nothing of the repository is executed.
-class _NoInt(Exception):
-    pass
-
-
-def _ieval(e, env, arr, n):
-    if isinstance(e, ast.Constant) and isinstance(e.value, int) and not isinstance(e.value, bool):
-        return e.value
-    if isinstance(e, ast.Name):
-        if isinstance(env.get(e.id), int):
-            return env[e.id]
-        raise _NoInt(e.id)
-    if isinstance(e, ast.Call) and call_name(e) == "len" and len(e.args) == 1 and u(e.args[0]) == arr:
-        return n
-    if isinstance(e, ast.Subscript) and u(e.value) == arr + ".shape" and const(e.slice) == 0:
-        return n
-    if isinstance(e, ast.UnaryOp) and isinstance(e.op, ast.USub):
-        return -_ieval(e.operand, env, arr, n)
-    if isinstance(e, ast.BinOp):
-        a, b = _ieval(e.left, env, arr, n), _ieval(e.right, env, arr, n)
-        if isinstance(e.op, ast.Add):
-            return a + b
-        if isinstance(e.op, ast.Sub):
-            return a - b
-        if isinstance(e.op, ast.Mult):
-            return a * b
-        if isinstance(e.op, ast.FloorDiv) and b != 0:
-            return a // b
-    raise _NoInt(u(e)[:30])
-
-
-def _enum_index_space(stmts, env, arr, n, out, budget, resolve=None, depth=0):
-    def record(expr):
-        """calls whose direct arguments are rows arr[e]; returns False when a short-circuit integer test in a conjunction was false"""
-        for c in ast.walk(expr):
-            if isinstance(c, ast.Call):
-                # a private helper that receives the whole array (the validity loop moved into `_outside_of_any_other(halfplanes, p, i, j)`): entered
-                fn = resolve(c) if resolve is not None and depth < 2 and any(isinstance(a, ast.Name) and a.id == arr for a in c.args) and not c.keywords else None
-                if fn is not None and len(fn.args.args) == len(c.args):
-                    env2 = {"__pair": env.get("__pair")}
-                    arr2 = arr
-                    for p_, a_ in zip(fn.args.args, c.args):
-                        if isinstance(a_, ast.Name) and a_.id == arr:
-                            arr2 = p_.arg
-                        else:
-                            try:
-                                env2[p_.arg] = _ieval(a_, env, arr, n)
-                            except _NoInt:
-                                pass
-                    body_ = [x for x in fn.body if not (isinstance(x, ast.Expr) and isinstance(x.value, ast.Constant))]
-                    _enum_index_space(body_, env2, arr2, n, out, budget, resolve, depth + 1)
-                    continue
-                rows = []
-                for a in c.args:
-                    if isinstance(a, ast.Subscript) and u(a.value) == arr:
-                        try:
-                            rows.append(_ieval(a.slice, env, arr, n))
-                        except _NoInt:
-                            rows.append(None)
-                if len(rows) == 2:
-                    env["__pair"] = frozenset(rows) if None not in rows else None
-                    out.append(("pair", tuple(rows), None))
-                elif len(rows) == 1:
-                    out.append(("single", rows[0], env.get("__pair")))
-
-    def tri(t):
-        """(value True / False / None, and records the calls that are really evaluated — left-to-right short circuit)"""
-        if isinstance(t, ast.BoolOp):
-            vals = []
-            for v in t.values:
-                r = tri(v)
-                vals.append(r)
-                if isinstance(t.op, ast.And) and r is False:
-                    return False
-                if isinstance(t.op, ast.Or) and r is True:
-                    return True
-            return None if None in vals else (all(vals) if isinstance(t.op, ast.And) else any(vals))
-        if isinstance(t, ast.UnaryOp) and isinstance(t.op, ast.Not):
-            r = tri(t.operand)
-            return None if r is None else (not r)
-        if isinstance(t, ast.Compare) and len(t.ops) == 1:
-            try:
-                a, b = _ieval(t.left, env, arr, n), _ieval(t.comparators[0], env, arr, n)
-                return {ast.Eq: a == b, ast.NotEq: a != b, ast.Lt: a < b, ast.LtE: a <= b, ast.Gt: a > b, ast.GtE: a >= b}.get(type(t.ops[0]))
-            except _NoInt:
-                pass
-        record(t)
-        return None
-    for st in stmts:
-        budget[0] -= 1
-        if budget[0] < 0:
-            raise _NoInt("budget")
-        if isinstance(st, ast.Assign):
-            record(st.value)
-            for t in st.targets:
-                if isinstance(t, ast.Name):
-                    try:
-                        env[t.id] = _ieval(st.value, env, arr, n)
-                    except _NoInt:
-                        env.pop(t.id, None)
-        elif isinstance(st, ast.AugAssign):
-            record(st.value)
-            if isinstance(st.target, ast.Name):
-                env.pop(st.target.id, None)
-        elif isinstance(st, ast.For):
-            it = st.iter
-            if isinstance(it, ast.Call) and call_name(it) == "range" and isinstance(st.target, ast.Name):
-                try:
-                    args = [_ieval(a, env, arr, n) for a in it.args]
-                except _NoInt as ex:
-                    raise _NoInt("loop bound `%s`" % u(it)[:40])
-                for v in range(*args):
-                    env[st.target.id] = v
-                    _enum_index_space(st.body, env, arr, n, out, budget, resolve, depth)
-            else:
-                raise _NoInt("loop over `%s`" % u(it)[:40])
-        elif isinstance(st, ast.While):
-            raise _NoInt("while loop")
-        elif isinstance(st, ast.If):
-            r = tri(st.test)
-            if r is not False:
-                _enum_index_space(st.body, dict(env) if r is None else env, arr, n, out, budget, resolve, depth)
-            if r is not True:
-                _enum_index_space(st.orelse, dict(env) if r is None else env, arr, n, out, budget, resolve, depth)
-        elif isinstance(st, (ast.Expr, ast.Return, ast.Assert)):
-            v = st.value if not isinstance(st, ast.Assert) else st.test
-            if v is not None:
-                record(v)
-
-
+# Decided by enumerating the index space of the loop nest (core/indexspace.py) for n = 3 .. 6 half-planes.
 def r_hpcover(idx, rep, rule="R-HPCOVER"):
     import itertools
+    from ..core.indexspace import enumerate_function, NotEnumerable
     rep.rule(rule, "intersect_halfplanes: every pair of half-planes is intersected and every candidate vertex is tested against every OTHER half-plane — index space of "
                    "the loop nest enumerated for n = 3 .. 6 (integer expressions only; calls on the rows are recorded with their indices)", floor=2)
     f = idx.func(HY + "_halfplanes::intersect_halfplanes")
@@ -906,29 +777,109 @@ def r_hpcover(idx, rep, rule="R-HPCOVER"):
     bad1 = bad2 = None
     try:
         for n in (3, 4, 5, 6):
-            out = []
-            def resolve(c_):
-                g_ = idx.resolve_call(f.module, c_, None)
-                node_ = getattr(g_, "node", None)
-                return node_ if isinstance(node_, ast.FunctionDef) and getattr(g_, "module", None) is f.module and getattr(g_, "cls", None) is None else None
-            _enum_index_space(f.node.body, {}, arr, n, out, [200000], resolve)
-            pairs = {frozenset(r) for k, r, _ in out if k == "pair" and None not in r}
-            if any(None in r for k, r, _ in out if k == "pair") or any(r is None or p is None for k, r, p in out if k == "single"):
-                raise _NoInt("a row index is not an integer expression of the loop variables")
+            events = enumerate_function(idx, f, {arr: n})
+            calls_ = [(name, rows) for kind, name, rows in events if kind == "call"]
+            if any(r is None for _, rows in calls_ for _, r in rows):
+                raise NotEnumerable("a row index is not an integer expression of the loop variables")
             want = {frozenset(c) for c in itertools.combinations(range(n), 2)}
+            pairs, tested, cur = set(), {}, None
+            for name, rows in calls_:
+                if len(rows) == 2:
+                    cur = frozenset(r for _, r in rows)
+                    pairs.add(cur)
+                elif len(rows) == 1 and cur is not None:
+                    tested.setdefault(cur, set()).add(rows[0][1])
             if bad1 is None and pairs != want:
                 miss = sorted(sorted(x) for x in want - pairs)
                 extra = sorted(sorted(x) for x in pairs - want)
                 bad1 = "for %d half-planes the pairs %s are never intersected%s" % (n, miss[:4], ("; degenerate pairs %s are" % extra[:3]) if extra else "")
             for P in sorted(pairs & want, key=sorted):
-                ks = {r for k, r, p in out if k == "single" and p == P}
                 need = set(range(n)) - set(P)
-                if bad2 is None and not need <= ks:
+                if bad2 is None and not need <= tested.get(P, set()):
                     bad2 = "for %d half-planes the candidate of the pair %s is never tested against half-plane(s) %s: a vertex outside that half-plane is kept, " \
-                           "the contact polygon is not clipped by it" % (n, sorted(P), sorted(need - ks))
-    except _NoInt as ex:
+                           "the contact polygon is not clipped by it" % (n, sorted(P), sorted(need - tested.get(P, set())))
+    except NotEnumerable as ex:
         rep.unknown(rule, key1, f.where, "index space not enumerable: %s" % ex)
         rep.unknown(rule, key2, f.where, "index space not enumerable: %s" % ex)
         return
     rep.check(bad1 is None, rule, key1, f.where, bad1 or "", "all C(n, 2) pairs for n = 3 .. 6")
     rep.check(bad2 is None, rule, key2, f.where, bad2 or "", "every k outside the pair for n = 3 .. 6")
+
+
+# ---------------------------------------------------------------------------------------------------------------------------------
+# R-ALLFACES: the contact polygon of a tetrahedron pair is the contact plane clipped by ALL EIGHT faces (four half-spaces per tetrahedron).  Which face of a
+# tetrahedron is redundant depends on the mesh (for sphere / cube meshes the last row happens to be the outer zero-pressure face, for cylinder / capsule meshes
+# it is not), so no row may be dropped on the way from (X1, X2) to the half-plane loop.
+def _rows_of(e, params4):
+    """number of rows of a stacked half-space expression, or None"""
+    if isinstance(e, ast.Name):
+        return 4 if e.id in params4 else None
+    if isinstance(e, ast.Subscript):
+        base = _rows_of(e.value, params4)
+        sl = e.slice.elts[0] if isinstance(e.slice, ast.Tuple) else e.slice
+        if base is None or not isinstance(sl, ast.Slice) or sl.step is not None:
+            return None
+        lo = const(sl.lower) if sl.lower is not None else 0
+        hi = const(sl.upper) if sl.upper is not None else base
+        if not isinstance(lo, int) or not isinstance(hi, int):
+            return None
+        lo = lo + base if lo < 0 else lo
+        hi = hi + base if hi < 0 else hi
+        return max(0, min(hi, base) - lo)
+    if isinstance(e, ast.Call) and (call_name(e) or "").split(".")[-1] in ("vstack", "concatenate", "row_stack") and e.args and isinstance(e.args[0], (ast.Tuple, ast.List)):
+        parts = [_rows_of(x, params4) for x in e.args[0].elts]
+        return None if None in parts else sum(parts)
+    if isinstance(e, ast.Call) and (call_name(e) or "").split(".")[-1] in ("ascontiguousarray", "asarray", "array", "copy") and e.args:
+        return _rows_of(e.args[0], params4)
+    return None
+
+
+def r_allfaces(idx, rep, rule="R-ALLFACES"):
+    rep.rule(rule, "compute_contact_polygon hands all 4 + 4 half-spaces of the two tetrahedra to make_halfplanes, and make_halfplanes visits every row it is given", floor=2)
+    f = idx.func(HY + "_tetrahedron_intersection::compute_contact_polygon")
+    g = idx.func(HY + "_tetrahedron_intersection::make_halfplanes")
+    x1, x2 = f.params()[:2]
+    cs = [c for c in calls(f.node) if (call_name(c) or "").split(".")[-1] == "make_halfplanes"]
+    key = f.key + "|all eight half-spaces reach make_halfplanes"
+    if len(cs) != 1 or not cs[0].args:
+        rep.unknown(rule, key, f.where, "the call of make_halfplanes was not found")
+    else:
+        arg = cs[0].args[0]
+        arg = resolved(f.node, arg) if isinstance(arg, ast.Name) else arg
+        n = _rows_of(arg, {x1, x2})
+        names = {n_.id for n_ in ast.walk(arg) if isinstance(n_, ast.Name)}
+        if n is None:
+            rep.unknown(rule, key, "%s:%d" % (f.module.relpath, cs[0].lineno), "the number of rows of `%s` is not derivable" % u(arg)[:60])
+        else:
+            rep.check(n == 8 and {x1, x2} <= names, rule, key, "%s:%d" % (f.module.relpath, cs[0].lineno),
+                      "`%s` has %d rows: the polygon must be clipped by the four faces of BOTH tetrahedra (8 half-spaces); a dropped face is redundant only for meshes whose "
+                      "tetrahedra are ordered (surface, surface, surface, centre) — for cylinder / capsule meshes the polygon spills into the neighbouring tetrahedron and "
+                      "the force on one body is counted twice" % (u(arg)[:60], n), "4 + 4 rows")
+    # make_halfplanes visits every row
+    from ..core.indexspace import Enumerator, NotEnumerable
+    X = g.params()[0]
+    key2 = g.key + "|every half-space row is visited"
+    bad = None
+    try:
+        for n in (8, 5):
+            # rows touched: any subscript A[i] with i a loop variable, A the parameter or an array derived from it (same leading length)
+            loops = [st for st in iter_stmts(g.node.body) if isinstance(st, ast.For) and isinstance(st.iter, ast.Call) and call_name(st.iter) == "range"]
+            if not loops:
+                raise NotEnumerable("no range loop")
+            en = Enumerator({X: n})
+            env = {}
+            for st in g.node.body:
+                if isinstance(st, ast.Assign) and isinstance(st.targets[0], ast.Name):
+                    try:
+                        env[st.targets[0].id] = en.ieval(st.value, env, {X: X})
+                    except NotEnumerable:
+                        pass
+            args = [en.ieval(a, env, {X: X}) for a in loops[0].iter.args]
+            visited = set(range(*args))
+            if visited != set(range(n)) and not (n != 8 and const(loops[0].iter.args[-1]) == 8):
+                bad = "with %d rows the loop `%s` visits %s" % (n, u(loops[0].iter), sorted(visited))
+                break
+    except NotEnumerable as ex:
+        rep.unknown(rule, key2, g.where, "loop bounds not derivable: %s" % ex)
+        return
+    rep.check(bad is None, rule, key2, g.where, "%s: a half-space that is never turned into a half-plane does not clip the polygon" % (bad or ""), "all rows")
